@@ -127,6 +127,18 @@ func (e *Engine) VerifyFunc(fn *ssa.Function, spec *FuncSpec) (res *FuncResult) 
 			penv[n] = results[i]
 		}
 		ctx := &specCtx{e: e, st: s, env: penv, heaps: s.heaps, oldHeaps: s.old, pkg: fn.Pkg, results: results}
+		root := s.frames[0]
+		ctx.iters = func(ord int) *Term {
+			if ord < len(fi.byOrd) {
+				if lc := root.loops[fi.byOrd[ord].head]; lc != nil {
+					if lc.iter != nil {
+						return lc.iter
+					}
+					return Num(int64(lc.count))
+				}
+			}
+			return Zero
+		}
 		for _, u := range spec.Unfolds {
 			ctx.unfold(u)
 		}
